@@ -214,3 +214,12 @@ func Ints(n int) []channel.Bal {
 	}
 	return out
 }
+
+// SumBals adds up a balance row (harness arithmetic for reference predicates).
+func SumBals(bs []channel.Bal) *big.Int {
+	s := new(big.Int)
+	for _, b := range bs {
+		s.Add(s, b)
+	}
+	return s
+}
